@@ -79,7 +79,10 @@ def gen(S, tier):
         else:
             q = w.pick(["has", "has_any", "get", "get_all", "prio"])
             ops.append(["q_" + q, w.randrange(3), w.randrange(max(1, n_listeners))])
-    return {"ops": ops}
+    sc = {"ops": ops}
+    if S("config").chance(0.2):
+        sc["lanes"] = [w.randrange(2) for _ in range(8)]
+    return sc
 
 
 def simplify(sc):
@@ -101,6 +104,39 @@ def simplify(sc):
 
 class _Abort(Exception):
     pass
+
+
+class _Lane(object):
+    """A long-lived caller thread: ``call(fn)`` runs fn there and waits for it (no concurrency)."""
+
+    def __init__(self):
+        import queue
+        import threading
+        self.q, self.r = queue.Queue(), queue.Queue()
+        self.t = threading.Thread(target=self._loop)
+        self.t.daemon = True
+        self.t.start()
+
+    def _loop(self):
+        while True:
+            fn = self.q.get()
+            if fn is None:
+                return
+            try:
+                self.r.put(("ok", fn()))
+            except BaseException as e:
+                self.r.put(("raise", e))
+
+    def call(self, fn):
+        self.q.put(fn)
+        kind, val = self.r.get()
+        if kind == "raise":
+            raise val
+        return val
+
+    def close(self):
+        self.q.put(None)
+        self.t.join()
 
 
 class _Runaway(BaseException):
@@ -333,71 +369,90 @@ def execute(sc):
             raise raised  # propagate through the re-entrant caller like any exception
         return len(actual)
 
-    big = 0
-    for op in sc["ops"]:
-        res.steps += 1
+    big = [0]
+
+    def step(op):
         k = op[0]
-        try:
-            if k == "reg":
-                _, ev, prio, b, reuse, extra = op
-                if reuse is not None and reuse < len(listeners):
-                    lid = reuse
+        if k == "reg":
+            _, ev, prio, b, reuse, extra = op
+            if reuse is not None and reuse < len(listeners):
+                lid = reuse
+            else:
+                if b == "reg" and not extra:
+                    b = "pass"
+                if b == "redispatch" and not extra:
+                    b = "pass"
+                lid = make_listener(b, extra)
+            do_register(ev, prio, lid)
+            log.append(("reg", ev, prio, lid))
+        elif k == "dispatch":
+            n = do_dispatch(op[1])
+            if n >= 2:
+                big[0] += 1
+        elif k == "q_has":
+            got = d.has_listeners(EVENTS[op[1]])
+            want = any(r["event"] == op[1] for r in regs)
+            log.append(("has", op[1], got))
+            if bool(got) != want:
+                res.violate("query", "has_listeners(event)", "has_listeners(%s) = %r, model %r" % (EVENTS[op[1]], got, want))
+        elif k == "q_has_any":
+            got = d.has_listeners()
+            log.append(("has_any", got))
+            if bool(got) != bool(regs):
+                res.violate("query", "has_listeners()", "has_listeners() = %r, model %r" % (got, bool(regs)))
+        elif k == "q_get":
+            got = d.get_listeners(EVENTS[op[1]])
+            want = order(regs, op[1])
+            ids = [_lid_of(listeners, f) for f in got]
+            log.append(("get", op[1], ids))
+            if ids != want:
+                res.violate("query", "get_listeners(event)", "get_listeners(%s) = %r, model %r" % (EVENTS[op[1]], ids, want))
+        elif k == "q_get_all":
+            got = d.get_listeners()
+            m = {EVENTS[e]: order(regs, e) for e in range(3) if any(r["event"] == e for r in regs)}
+            g = {name: [_lid_of(listeners, f) for f in fs] for name, fs in got.items() if fs}
+            log.append(("get_all", sorted(g.items())))
+            if g != m:
+                res.violate("query", "get_listeners()", "get_listeners() = %r, model %r" % (g, m))
+        elif k == "q_prio":
+            ev, lid = op[1], op[2]
+            if lid >= len(listeners):
+                return
+            prios = {r["prio"] for r in regs if r["event"] == ev and r["lid"] == lid}
+            if len(prios) > 1:
+                return
+            got = d.get_listener_priority(EVENTS[ev], listeners[lid][0])
+            want = next(iter(prios)) if prios else None
+            log.append(("prio", ev, lid, got))
+            if got != want:
+                res.violate("query", "get_listener_priority", "priority of listener %d for %s = %r, model %r" % (lid, EVENTS[ev], got, want))
+
+    # Which thread makes the call is part of the history: with "lanes" every operation is handed to one
+    # of two long-lived caller threads and runs there to completion before the next one starts - the
+    # operations stay strictly sequential (the property promises nothing about concurrent calls), but
+    # anything kept per thread shows.
+    lanes = [_Lane(), _Lane()] if sc.get("lanes") else None
+    if lanes:
+        res.probe("operations_from_two_threads")
+    try:
+        for n_op, op in enumerate(sc["ops"]):
+            res.steps += 1
+            try:
+                if lanes:
+                    lanes[sc["lanes"][n_op % len(sc["lanes"])]].call(lambda: step(op))
                 else:
-                    if b == "reg" and not extra:
-                        b = "pass"
-                    if b == "redispatch" and not extra:
-                        b = "pass"
-                    lid = make_listener(b, extra)
-                do_register(ev, prio, lid)
-                log.append(("reg", ev, prio, lid))
-            elif k == "dispatch":
-                n = do_dispatch(op[1])
-                if n >= 2:
-                    big += 1
-            elif k == "q_has":
-                got = d.has_listeners(EVENTS[op[1]])
-                want = any(r["event"] == op[1] for r in regs)
-                log.append(("has", op[1], got))
-                if bool(got) != want:
-                    res.violate("query", "has_listeners(event)", "has_listeners(%s) = %r, model %r" % (EVENTS[op[1]], got, want))
-            elif k == "q_has_any":
-                got = d.has_listeners()
-                log.append(("has_any", got))
-                if bool(got) != bool(regs):
-                    res.violate("query", "has_listeners()", "has_listeners() = %r, model %r" % (got, bool(regs)))
-            elif k == "q_get":
-                got = d.get_listeners(EVENTS[op[1]])
-                want = order(regs, op[1])
-                ids = [_lid_of(listeners, f) for f in got]
-                log.append(("get", op[1], ids))
-                if ids != want:
-                    res.violate("query", "get_listeners(event)", "get_listeners(%s) = %r, model %r" % (EVENTS[op[1]], ids, want))
-            elif k == "q_get_all":
-                got = d.get_listeners()
-                m = {EVENTS[e]: order(regs, e) for e in range(3) if any(r["event"] == e for r in regs)}
-                g = {name: [_lid_of(listeners, f) for f in fs] for name, fs in got.items() if fs}
-                log.append(("get_all", sorted(g.items())))
-                if g != m:
-                    res.violate("query", "get_listeners()", "get_listeners() = %r, model %r" % (g, m))
-            elif k == "q_prio":
-                ev, lid = op[1], op[2]
-                if lid >= len(listeners):
-                    continue
-                prios = {r["prio"] for r in regs if r["event"] == ev and r["lid"] == lid}
-                if len(prios) > 1:
-                    continue
-                got = d.get_listener_priority(EVENTS[ev], listeners[lid][0])
-                want = next(iter(prios)) if prios else None
-                log.append(("prio", ev, lid, got))
-                if got != want:
-                    res.violate("query", "get_listener_priority", "priority of listener %d for %s = %r, model %r" % (lid, EVENTS[ev], got, want))
-        except _Abort:
-            pass
-        except _Runaway:
-            break
-        except Exception as e:
-            res.violate("op_raised", k, "%s: %s" % (type(e).__name__, e))
-            break
+                    step(op)
+            except _Abort:
+                pass
+            except _Runaway:
+                break
+            except Exception as e:
+                res.violate("op_raised", op[0], "%s: %s" % (type(e).__name__, e))
+                break
+    finally:
+        for ln in lanes or ():
+            ln.close()
+    big = big[0]
     res.states.add(tuple(sorted((r["event"], r["prio"], listeners[r["lid"]][1]) for r in regs)))
     res.nontrivial = big >= 1 and bool(res.probes.get("register_after_dispatch")) or bool(res.faults)
     return res
